@@ -13,7 +13,7 @@ META = dict(
     explanation='The real rxsci.data.codec encode/decode operators run over pure-Python incremental codec models (contract stubs, validated against CPython\'s codecs on a boundary alphabet x every cut at the start of every run). '
                 'Strings are lists of symbolic code points over the whole Unicode range minus surrogates (astral, combining, U+FEFF are just values of the variables); the string list has a concrete shape (lengths per item, empty strings included); '
                 'the encoded byte stream is cut at two positions (first concrete per obligation, second solver-chosen; inside multi-byte sequences) and decoded: the concatenation of decoded strings must equal the concatenation of the originals, '
-                'the encoder must emit one chunk per item plus a final flush, a second subscription of the same encode / decode pipeline must behave like the first (fresh codec state per subscription), decode must finish without error, and for utf-16/utf-32 the byte-order mark must appear exactly once at the start. The decode step as json.load_from_file composes it (read chunks -> decode -> unframe -> load) is exercised with the C19 harness and a read boundary at every byte position.',
+                'a second subscription of the same encode / decode pipeline must behave like the first (fresh codec state per subscription), decode must finish without error, and for utf-16/utf-32 the byte-order mark must appear exactly once at the start. The decode step as json.load_from_file composes it (read chunks -> decode -> unframe -> load) is exercised with the C19 harness and a read boundary at every byte position.',
     bounds=dict(quick='<= 2 strings, <= 2 code points in total, 2 cuts; utf-8, utf-16, utf-32, latin-1 (code points <= 0xFF)', thorough='<= 3 strings, <= 3 code points in total'),
     outside='CPython\'s codec implementations themselves (replaced by validated models); incremental=False (each item independent, documented as such); more code points than the bound',
     assumptions=['codecs.getincrementalencoder/decoder behave as vp/stubs/codecs_model.py (validated against CPython at run start)'],
